@@ -163,7 +163,8 @@ class LookupTable(LookupTableBase):
 
         # Detect if there is a range violation
         if detect_range_error:
-            l_r, u_r = self.range
+            # The table may be decreasing
+            l_r, u_r = sorted(self.range)
             lb_viol = y_array_not_nan < l_r
             ub_viol = y_array_not_nan > u_r
             all_viol = y_array_not_nan[lb_viol | ub_viol]
